@@ -17,6 +17,11 @@ Space     every bookable ledger of vt.ledgers12 (all sequences of <= n transacti
           x balance     target lists mentioning `balance` 0, 1, 2, 3 times in varying positions, through
                         units()/cost(), with an intervening `account IN (SELECT account FROM postings
                         WHERE ...)` whose scan does / does not consult balance; `balance` in WHERE.
+          x inventory columns: sum / first / last / count over the inventory-valued column of a
+                        FROM-subquery (SELECT key, sum(position) AS inv ... GROUP BY key) and of a
+                        user-registered table holding Inventory objects, 1-3 aggregates over the SAME
+                        column in one statement, ungrouped and grouped; each table statement is executed
+                        twice and the table's data is snapshotted before / after (source data unchanged).
 Oracle    (i)   every sum == Inventory fold over the rows of the group (groups and selection computed
                 by the reference with three-valued filter semantics);
           (ii)  f(sum(position)) == sum(f(position)) as beancount Inventories, and each == the reference;
@@ -46,7 +51,7 @@ import beanquery
 from beancount.core import convert, inventory, position, prices
 
 from .. import ledgers12 as L
-from ..harness import select, F, C, col, A, crash_fingerprint
+from ..harness import select, F, C, col, A, crash_fingerprint, HTable, connect
 from ..par import Acc, run_shards, mine
 from ..runner import Result, Violation, jsonable, unjson
 
@@ -355,6 +360,166 @@ def check_sub(led, wname, fname, gname, stats):
 
 
 # ---------------------------------------------------------------------------------------------
+# sums over inventory-valued COLUMNS whose values outlive one update: FROM-subquery rows and rows of a
+# user-registered table, with several aggregates over the same column, grouped and ungrouped
+ISHAPES = {
+    'sum': ['S'],
+    'sum,units(sum)': ['S', 'US'],
+    'sum,sum': ['S', 'S'],
+    'first,sum': ['F', 'S'],
+    'last,sum,count': ['L', 'S', 'N'],
+    'sum,sum(units),sum': ['S', 'SU', 'S'],
+}
+ITOK = {
+    'S': (lambda: F('sum', col('inv')), 'sum(inv)'),
+    'US': (lambda: F('units', F('sum', col('inv'))), 'units(sum(inv))'),
+    'SU': (lambda: F('sum', F('units', col('inv'))), 'sum(units(inv))'),
+    'F': (lambda: F('first', col('inv')), 'first(inv)'),
+    'L': (lambda: F('last', col('inv')), 'last(inv)'),
+    'N': (lambda: F('count', col('inv')), 'count(inv)'),
+}
+IWHERE = ['none', 'number>0', "account~'Inv|Cash'"]
+# inner grouping -> admissible outer groupings (outer key computed from the inner key column)
+IGROUPS = {'account': ['none', 'root'], 'currency': ['none']}
+
+
+def check_inv_values(desc, shape, members, vals, stats, out, fp='sum:inventory-column'):
+    """members: the inventories of the group's source rows, in source order; vals: the result cells."""
+    total = fold(('inv', m) for m in members)
+    for j, tok in enumerate(ISHAPES[shape]):
+        stats['cells'] += 1
+        v = vals[j]
+        name = ITOK[tok][1]
+        if tok == 'S':
+            ok, exp = v == total, total
+        elif tok == 'US':
+            exp = total.reduce(convert.get_units)
+            ok = v == exp
+        elif tok == 'SU':
+            exp = fold(('inv', m.reduce(convert.get_units)) for m in members)
+            ok = v == exp
+        elif tok == 'N':
+            exp = len(members)
+            ok = v == exp
+        else:
+            # first / last: weakest reading -- one of the group's own values, whichever order rows arrive in
+            exp = 'one of the values of the group'
+            ok = any(v == m for m in members)
+        if not ok:
+            out.append((fp, f'{desc}: target {j} {name} = {show(v)}, expected {show(exp)} '
+                        f'(the group holds {[show(m) for m in members]})'))
+    stats['outcomes'].add(inv_key(vals[0]))
+
+
+def check_invsub(led, wname, igname, ogname, shape, stats):
+    ikeys = GROUPS[igname][0]()
+    inner = select([(ikeys[0], igname), (F('sum', col('position')), 'inv')], where=WHERE[wname][0](), group_by=A.GroupBy([1], None))
+    okeys = [F('root', col('account'), C(1))] if ogname == 'root' else []
+    targets = [(k, f'k{i}') for i, k in enumerate(okeys)] + [(ITOK[t][0](), f'c{i}') for i, t in enumerate(ISHAPES[shape])]
+    stmt = select(targets, from_=inner, group_by=A.GroupBy([1], None) if okeys else None)
+    ttext = ', '.join((['root(account, 1)'] if okeys else []) + [ITOK[t][1] for t in ISHAPES[shape]])
+    desc = (f'`SELECT {ttext} FROM (' + bql(f'{GROUP_TEXT[igname]}, sum(position) AS inv', wname, 'none', igname).strip('`') + ')'
+            + (' GROUP BY 1' if okeys else '') + '`')
+    try:
+        got = led.conn.execute(stmt).fetchall()
+    except Exception as e:
+        return [(f'crash:{crash_fingerprint(e)}', f'{desc}: {type(e).__name__}: {e}')]
+    stats['queries'] += 1
+    sel = led.selected(wname, 'none')
+    inner_groups = {}
+    for i in sel:
+        t, p = led.rows[i]
+        inner_groups.setdefault(GROUPS[igname][1](t, p)[0], Inv()).add_position(p)
+    outer = {}
+    for k, inv in inner_groups.items():
+        outer.setdefault((k.split(':')[0],) if okeys else (), []).append(inv)
+    nk = len(okeys)
+    if not sel and not okeys:
+        stats['empty_selections'] += 1
+        return []
+    gotmap = {tuple(r[:nk]): r[nk:] for r in got}
+    if set(gotmap) != set(outer) or len(got) != len(outer):
+        return [('group:keys', f'{desc}: groups {sorted(gotmap)!r}, expected {sorted(outer)!r}')]
+    out = []
+    for k, members in outer.items():
+        stats['groups'] += 1
+        stats['rows_folded'] += len(members)
+        if len(members) > 1:
+            stats['inventory_column_groups_with_several_rows'] += 1
+        check_inv_values(f'{desc} group {k!r}', shape, members, gotmap[k], stats, out)
+    return out
+
+
+def inv_table(led, variant):
+    """User-registered table of inventories built from the ledger: one row per posting (k = account,
+    g = root, inv = that posting alone), with an empty inventory in front (variant 'postings'); or one
+    row per (account, currency) holding the account's running lots (variant 'accounts')."""
+    rows = []
+    if variant == 'postings':
+        if led.rows:
+            a = led.rows[0][1].account
+            rows.append((a, a.split(':')[0], Inv()))
+        for t, p in led.rows:
+            rows.append((p.account, p.account.split(':')[0], fold([('pos', pos_of(p))])))
+    else:
+        per = {}
+        for t, p in led.rows:
+            per.setdefault((p.account, p.units.currency), Inv()).add_position(p)
+        for (a, cur), inv in per.items():
+            rows.append((a, a.split(':')[0], inv))
+    return rows
+
+
+def snapshot(rows):
+    return [(k, g, tuple(inv.get_positions())) for k, g, inv in rows]
+
+
+def check_invtab(led, variant, gcol, shape, stats):
+    rows = inv_table(led, variant)
+    table = HTable([('k', str), ('g', str), ('inv', Inv)], rows, name='h')
+    conn = connect(h=table)
+    keys = [col(gcol)] if gcol else []
+    targets = [(k, f'k{i}') for i, k in enumerate(keys)] + [(ITOK[t][0](), f'c{i}') for i, t in enumerate(ISHAPES[shape])]
+    stmt = select(targets, from_='h', group_by=A.GroupBy([1], None) if keys else None)
+    desc = (f'`SELECT {", ".join(([gcol] if gcol else []) + [ITOK[t][1] for t in ISHAPES[shape]])} FROM #h'
+            + (' GROUP BY 1' if gcol else '') + f'` (user table of {len(rows)} inventories, variant {variant})')
+    before = snapshot(rows)
+    members = {}
+    for k, g, inv in rows:
+        members.setdefault(({'k': k, 'g': g}[gcol],) if gcol else (), []).append(copy.copy(inv))
+    out = []
+    results = []
+    for run in (1, 2):
+        try:
+            got = conn.execute(stmt).fetchall()
+        except Exception as e:
+            return [(f'crash:{crash_fingerprint(e)}', f'{desc}: {type(e).__name__}: {e}')]
+        stats['queries'] += 1
+        results.append(got)
+        stats['source_snapshots_compared'] += 1
+        after = snapshot(rows)
+        if after != before:
+            i = next(i for i, (a, b) in enumerate(zip(before, after)) if a != b)
+            out.append(('sum:inventory-source-mutated', f'{desc}: execution {run} changed the table: row {i} ({before[i][0]}) held '
+                        f'{[str(x) for x in before[i][2]]}, now {[str(x) for x in after[i][2]]}'))
+            break
+        if not rows and not gcol:
+            continue
+        nk = len(keys)
+        gotmap = {tuple(r[:nk]): r[nk:] for r in got}
+        if set(gotmap) != set(members) or len(got) != len(members):
+            out.append(('group:keys', f'{desc}: groups {sorted(gotmap)!r}, expected {sorted(members)!r}'))
+            break
+        for k, ms in members.items():
+            stats['groups'] += 1
+            stats['rows_folded'] += len(ms)
+            check_inv_values(f'{desc} execution {run} group {k!r}', shape, ms, gotmap[k], stats, out, fp='sum:inventory-column')
+    if len(results) == 2 and results[0] != results[1] and not out:
+        out.append(('sum:inventory-second-execution-differs', f'{desc}: the second execution returns {results[1]!r}, the first {results[0]!r}'))
+    return out
+
+
+# ---------------------------------------------------------------------------------------------
 # (iv) running balance in targets
 def _sub_consulting():
     return A.In(col('account'), select([(col('account'), 'a')], from_='postings', where=F('empty', col('balance'))))
@@ -555,6 +720,10 @@ def run_case(led, case, stats, fdates=None, total=None, totals=None):
         return check_bal(led, case['where'], case['from'], case['pattern'], stats, total)
     if kind == 'balw':
         return check_balw(led, case['cond'], case['pattern'], stats)
+    if kind == 'invsub':
+        return check_invsub(led, case['where'], case['inner'], case['outer'], case['shape'], stats)
+    if kind == 'invtab':
+        return check_invtab(led, case['variant'], case['gcol'], case['shape'], stats)
     raise AssertionError(kind)
 
 
@@ -627,6 +796,21 @@ def shard(shard_i, nshards, n, seed, tier):
             for pname in BPATTERNS:
                 case = led.case('balw', cond=cname, pattern=pname)
                 emit(case, run_case(led, case, stats))
+        source_before = [(t.date, t.narration, p.account, p.units, p.cost, p.price) for t, p in led.rows]
+        for shape in ISHAPES:
+            for wname in IWHERE:
+                for igname, outers in IGROUPS.items():
+                    for ogname in outers:
+                        case = led.case('invsub', where=wname, inner=igname, outer=ogname, shape=shape)
+                        emit(case, run_case(led, case, stats))
+            for variant in ('postings', 'accounts'):
+                for gcol in (None, 'g', 'k'):
+                    case = led.case('invtab', variant=variant, gcol=gcol, shape=shape)
+                    emit(case, run_case(led, case, stats))
+        # the ledger itself must come out of all the statements above unchanged
+        acc.count('ledger_snapshots_compared')
+        if [(t.date, t.narration, p.account, p.units, p.cost, p.price) for t, p in L.postings(led.entries)] != source_before:
+            acc.violation('source:ledger-mutated', f'ledger {list(seq)}: the loaded entries changed while the statements ran', led.case('ledger'))
         for k, v in stats.items():
             if isinstance(v, set):
                 for item in v:
@@ -695,7 +879,10 @@ def run(ctx):
         'distinct_selection_sizes': sorted(acc.sets['selection_sizes']),
         'distinct_function_results_differing_from_input': len(acc.sets['nontrivial_f']),
         'violating_cases': c['violating_cases'],
+        'user_table_snapshots_compared': c['source_snapshots_compared'],
+        'inventory_column_groups_with_several_rows': c['inventory_column_groups_with_several_rows'],
         'alphabet': {
+            'inventory_column_shapes': ISHAPES, 'inventory_column_where': IWHERE,
             'templates': L.ALPHABET, 'where': list(WHERE), 'from': list(FROM), 'groupings': list(GROUPS),
             'sum_forms': [s[0] for s in SUMFORMS], 'functions': [f[0] for f in functions(fdates)],
             'balance_target_patterns': PATTERNS, 'balance_where_conditions': list(BCOND),
@@ -704,6 +891,7 @@ def run(ctx):
         'samples': acc.samples[:6],
     }
     return Result(cov, violations, assumptions=[
+        'first()/last() over an inventory column: any one of the values of the group is accepted (row order of a subquery is not part of C12)',
         'ungrouped aggregate over an empty selection: no row or one row of empty inventories both accepted; group order not compared',
         'balance-in-WHERE cases only use conditions that evaluate the balance term on every scanned row (first operand, no FROM expression)',
         'value of the intervening IN target compared only when its subquery returns rows',
